@@ -364,17 +364,28 @@ def property_oracles(ctx, T, codes, athlib, reqs, groups, vals, errs):
                 a0 = t.first_nonnull_age(g, row.event)
                 for age in (a0, a0 + 0.5, 40, 67.5, t.ages[-1] + 7):
                     res = []
-                    for sp in GENDERS[g]:
+                    forms = list(GENDERS[g])
+                    if age == 40:          # the same spellings handed over as str subclasses (a str-Enum member, a str with its own __str__)
+                        forms += vlib.strlike_forms(GENDERS[g][0]) + vlib.strlike_forms(GENDERS[g][3])
+                    for sp in forms:
                         res.append((W.canon_py(lambda: athlib.wma_age_factor(sp, age, row.event, year=int(y))),
                                     W.canon_py(lambda: athlib.wma_world_best(sp, row.event, year=int(y))),
                                     W.canon_py(lambda: athlib.wma_age_grade(sp, age, row.event, float(row.best), year=int(y)))))
                         ng += 3
-                    for sp, r in zip(GENDERS[g], res):
+                    for sp, r in zip(forms, res):
                         for j, fn in enumerate(('wma_age_factor', 'wma_world_best', 'wma_age_grade')):
                             if r[j] != res[0][j]:          # definedness itself is the 'defined' clause above
-                                ctx.fail('athlib.' + fn, [y, sp, age, row.event], 'the answer for gender %r: %s' % (GENDERS[g][0], H.show(res[0][j])),
-                                         H.show(r[j]), note='gender-spelling',
-                                         replay_py='result = athlib.%s(%s)' % (fn, ', '.join(repr(x) for x in ([sp, age, row.event] if j == 0 else [sp, row.event] if j == 1 else [sp, age, row.event, float(row.best)])) + ', year=%s' % y))
+                                if type(sp) is str:
+                                    rp = 'result = athlib.%s(%s)' % (fn, ', '.join(repr(x) for x in ([sp, age, row.event] if j == 0 else [sp, row.event] if j == 1 else [sp, age, row.event, float(row.best)])) + ', year=%s' % y)
+                                else:
+                                    rp = ('import enum\nclass Odd(str):\n    def __str__(self): return "Man:" + str.__str__(self)\n'
+                                          'g = %s\nresult = athlib.%s(g, %s)' % (
+                                              'enum.Enum("MastersText", {"MEMBER": %r}, type=str).MEMBER' % str.__str__(sp) if isinstance(sp, __import__('enum').Enum) else 'Odd(%r)' % str.__str__(sp),
+                                              fn, ', '.join(repr(x) for x in ([age, row.event] if j == 0 else [row.event] if j == 1 else [age, row.event, float(row.best)])) + ', year=%s' % y))
+                                ctx.fail('athlib.' + fn, [y, str.__repr__(sp) if type(sp) is str else '%s(%r)' % (type(sp).__name__, str.__str__(sp)), age, row.event],
+                                         'the answer for gender %r: %s' % (GENDERS[g][0], H.show(res[0][j])),
+                                         H.show(r[j]), note='gender-spelling' if type(sp) is str else 'gender handed over as a str subclass',
+                                         replay_py=rp)
     ctx.count(ng, 'gender_spelling_calls')
     # ---- the documented verbose switch only prints: the grade must be the quiet call's grade
     import io, contextlib
